@@ -175,7 +175,9 @@ Fixpoint run_star (maxiter : nat) (outs ins : nstar) (ops : list sop) : list Z :
 Inductive kkind := KStorage | KGroundwater | KRiver | KReservoir | KRiverReservoir.
 Inductive kop :=
 | KPushSet (v : vqip) | KPullSet (q : Q) | KPushCheck (ov : option vqip) | KPullCheck (ov : option Q)
-| KDistribute | KInfiltrate | KAbstract | KSatisfy | KEnd (T : Q).
+| KDistribute | KInfiltrate | KAbstract | KSatisfy | KEnd (T : Q)
+(* apply_overrides on a node that has been used: the parameters as they stand afterwards (the tank keeps what it holds) *)
+| KOverride (cap res thr pct len vel damp mrf env : Q).
 Definition nknode := knode (nb * nb).
 Definition enc_knode (k : nknode) : list Z :=
   enc_tank (k_tank _ k) ++ encq (k_envsat _ k) ++ enc_star (k_outs _ k) ++ enc_star (k_ins _ k).
@@ -216,6 +218,10 @@ Definition kind_step (maxiter : nat) (kd : kkind) (k : nknode) (o : kop) : optio
   | KEnd T =>
       let k1 := k_end _ k T in
       Some (k_with _ k1 (k_tank _ k1) (end_star (k_outs _ k1)) (end_star (k_ins _ k1)) (k_envsat _ k1), [])
+  | KOverride cap res thr pct len vel damp mrf env =>
+      let t := k_tank _ k in
+      Some (mkK _ (mkT cap (t_sto t) (t_sto_ t) (t_dec t) (t_decayed t) (t_res t)) (k_outs _ k) (k_ins _ k) (k_envsat _ k)
+                res thr pct len vel damp mrf env, [])
   end.
 Fixpoint run_kind (maxiter : nat) (kd : kkind) (k : nknode) (ops : list kop) : list Z :=
   match ops with
